@@ -12,6 +12,7 @@ import (
 	"fmt"
 	"strings"
 	"testing"
+	"time"
 
 	"pgregory.net/rapid"
 )
@@ -32,6 +33,7 @@ type c04Dialog struct {
 	SubReqAt *RMsg  // for BySub: the SUBSCRIBE as received by the user agent
 	UAEP     *labEP
 	Uses     int
+	PinFirst time.Time // just before the first pin-creating response was sent (zero = never)
 }
 
 func c04BackendKey(r labRx) string {
@@ -50,9 +52,13 @@ func c04GenIdent(rt *rapid.T, label string, small bool) string {
 }
 
 func TestC04(t *testing.T) {
-	V.Rule("lab: rapid state machines over 1-12 concurrent dialogs per history on services with 2-6 UDP (and one TCP) backends: initial INVITE (UDP or TCP ingress) -> lands on some backend; that backend answers 100 / 18x with To-tag / 2xx / 4xx-6xx with To-tag from its configured address (UDP socket or the proxy's TCP connection); in-dialog ACK, BYE (never answered), re-INVITE, UPDATE, INFO, PRACK, MESSAGE, REFER, OPTIONS, NOTIFY, SUBSCRIBE in both directions (From/To swapped) from any user agent, plain or decorated (display names, URI parameters, compact names); backend-issued SUBSCRIBE answered by the user agent (Expires 3600 / 60 / 0 / absent), refresh and un-subscribe (Expires: 0) by the backend, then NOTIFY in that dialog; unrelated out-of-dialog requests advancing the rotation in between; stray requests with both tags of an unknown dialog. Identifiers from small alphabets (tags containing '-', equal From and To URIs, tel:/urn: identities) or long ones. Oracle: model pins; a pinned in-dialog request must arrive at the pinned backend and at no other endpoint (FIFO barrier), unpinned/stray ones at exactly one backend. non-trivial = pinned in-dialog request for which the rotation alone would have picked another backend; distinct by (dialog shape, method, direction)")
-	V.Require("pinned request while rotation points elsewhere", "direction: callee->service", "direction: caller->service", "method:ACK", "method:BYE", "method:INVITE", "method:UPDATE", "method:NOTIFY", "method:SUBSCRIBE", "pin by backend-issued SUBSCRIBE", "SUBSCRIBE answered with Expires: 0", "equal From and To URIs", "tag contains '-'", "unpinned dialog (only 100 so far)", "stray in-dialog request", "tcp backend pinned", "pin by non-2xx final with To-tag")
-	vars := []stdVariant{{Pool: 2}, {Pool: 3, PoolTCP: true}, {Pool: 6}}
+	V.Rule("lab: rapid state machines over 1-12 concurrent dialogs per history on services with 2-6 UDP (and one TCP) backends: initial INVITE (UDP or TCP ingress) -> lands on some backend; that backend answers 100 / 18x with To-tag / 2xx / 4xx-6xx with To-tag from its configured address (UDP socket or the proxy's TCP connection); in-dialog ACK, BYE (never answered), re-INVITE, UPDATE, INFO, PRACK, MESSAGE, REFER, OPTIONS, NOTIFY, SUBSCRIBE in both directions (From/To swapped) from any user agent, plain or decorated (display names, URI parameters, compact names); backend-issued SUBSCRIBE answered by the user agent (Expires 3600 / 60 / 0 / absent), the first NOTIFY optionally sent right behind the 2xx from the same socket, refresh and un-subscribe (Expires: 0) by the backend, then NOTIFY in that dialog; unrelated out-of-dialog requests advancing the rotation in between; stray requests with both tags of an unknown dialog; one service instance with a dialog timeout of 2 s and pauses of 60-220 ms in its histories, where a pin younger than the timeout must survive every expiry sweep (older ones are don't-cares). Identifiers from small alphabets (tags containing '-', equal From and To URIs, tel:/urn: identities) or long ones. Oracle: model pins; a pinned in-dialog request must arrive at the pinned backend and at no other endpoint (FIFO barrier), unpinned/stray ones at exactly one backend. non-trivial = pinned in-dialog request for which the rotation alone would have picked another backend; distinct by (dialog shape, method, direction)")
+	V.Require("NOTIFY right behind the 2xx of a backend-issued SUBSCRIBE", "short timeout: pinned request after a pause", "pinned request while rotation points elsewhere", "direction: callee->service", "direction: caller->service", "method:ACK", "method:BYE", "method:INVITE", "method:UPDATE", "method:NOTIFY", "method:SUBSCRIBE", "pin by backend-issued SUBSCRIBE", "SUBSCRIBE answered with Expires: 0", "equal From and To URIs", "tag contains '-'", "unpinned dialog (only 100 so far)", "stray in-dialog request", "tcp backend pinned", "pin by non-2xx final with To-tag")
+	// the last instance runs with a dialog timeout of 2 s: its expiry sweep runs
+	// every 2 s under the histories, which sometimes pause; a pin younger than
+	// the timeout must survive every sweep (older ones are don't-cares)
+	const shortTimeout = 2 * time.Second
+	vars := []stdVariant{{Pool: 2}, {Pool: 3, PoolTCP: true}, {Pool: 6}, {Pool: 3, Timeout: int(shortTimeout / time.Second)}}
 	var svcs []*stdSvc
 	for _, v := range vars {
 		s, err := newStdSvc(v)
@@ -73,7 +79,10 @@ func TestC04(t *testing.T) {
 	inMethods := []string{"ACK", "BYE", "INVITE", "UPDATE", "INFO", "PRACK", "MESSAGE", "REFER", "OPTIONS", "NOTIFY", "SUBSCRIBE"}
 
 	rcheck(t, "histories", V.N(300, 2500), func(rt *rapid.T) {
-		s := svcs[rapid.IntRange(0, len(svcs)-1).Draw(rt, "instance")]
+		inst := rapid.IntRange(0, len(svcs)-1).Draw(rt, "instance")
+		s := svcs[inst]
+		short := vars[inst].Timeout > 0
+		pauses := 0
 		l := s.in.cfg.Listens[0]
 		nb := len(l.Backends)
 		small := rapid.Bool().Draw(rt, "small identifiers")
@@ -234,6 +243,9 @@ func TestC04(t *testing.T) {
 					send = func(b []byte) error { return ep.sendUDP(l.Addr, l.UDPPort, b) }
 				}
 				V.Journal(t.Name()+"/histories", hist)
+				if toTag != "" && d.PinFirst.IsZero() {
+					d.PinFirst = time.Now()
+				}
 				s.in.expect(resp)
 				if err := send(resp); err != nil {
 					V.HarnessError(rt, "backend send: %v", err)
@@ -289,7 +301,21 @@ func TestC04(t *testing.T) {
 				if d.TagB == "" {
 					pinned = ""
 				}
+				outlived := false
+				if short && pinned != "" && time.Since(d.PinFirst) > shortTimeout-150*time.Millisecond {
+					// the request may have been handled after the pin's timeout: where it
+					// lands (and whether the rotation moved) tells nothing any more
+					pinned, outlived = "", true
+					V.Class("short timeout: dialog outlived its pin (don't-care)")
+				} else if short && pinned != "" {
+					V.Class("short timeout: pin younger than the timeout honoured")
+					V.ClassIf(pauses > 0, "short timeout: pinned request after a pause")
+				}
 				r := checkLanding(rt, got, fmt.Sprintf("in-dialog %s of %s", method, d.ID), pinned)
+				if outlived {
+					lastRR = ""
+					return
+				}
 				V.Class("method:" + method)
 				V.ClassIf(callerDir, "direction: caller->service")
 				V.ClassIf(!callerDir, "direction: callee->service")
@@ -303,6 +329,15 @@ func TestC04(t *testing.T) {
 					lastRR = c04BackendKey(r)
 					V.Class("unpinned dialog (only 100 so far)")
 				}
+			},
+			"pause": func(rt *rapid.T) {
+				if !short || pauses >= 3 {
+					rt.Skip("pauses belong to the short-timeout instance")
+				}
+				pauses++
+				ms := rapid.IntRange(60, 220).Draw(rt, "ms")
+				hist = append(hist, fmt.Sprintf("pause %d ms", ms))
+				time.Sleep(time.Duration(ms) * time.Millisecond)
 			},
 			"unrelated": func(rt *rapid.T) {
 				n := rapid.IntRange(1, 4).Draw(rt, "n")
@@ -460,18 +495,60 @@ func TestC04(t *testing.T) {
 				V.Journal(t.Name()+"/histories", hist)
 				ep := d.UAEP
 				send := func(b []byte) error { return ep.sendUDP(l.Addr, l.UDPPort, b) }
-				s.in.expect(resp)
+				if d.PinFirst.IsZero() {
+					d.PinFirst = time.Now()
+				}
+				// RFC 6665: the notifier sends the first NOTIFY right behind its 2xx. Both
+				// datagrams leave the same socket back to back; the NOTIFY belongs to the
+				// dialog the 2xx has just established
+				immediate := rapid.Bool().Draw(rt, "NOTIFY right behind the 2xx")
+				var notify []byte
+				if immediate {
+					notify = []byte(fmt.Sprintf("NOTIFY sip:svc.test SIP/2.0\r\nVia: SIP/2.0/UDP %s:%d;branch=z9hG4bK%s\r\nFrom: %s\r\nTo: %s\r\nCall-ID: %s\r\nCSeq: 1 NOTIFY\r\nEvent: presence\r\nSubscription-State: active;expires=60\r\nMax-Forwards: 70\r\nContent-Length: 0\r\n\r\n",
+						ep.ip, ep.port, s.nextID("c04n"), ANameAddr{URI: d.UriB, Params: []AParam{{K: "tag", V: d.TagB, HasV: true}}}.String(), ANameAddr{URI: d.UriA, Params: []AParam{{K: "tag", V: d.TagA, HasV: true}}}.String(), d.CallID))
+					s.model.learnRequest(s.model.transport(0, "udp"), ep.ip, &AMsg{IsReq: true, Hdrs: []AHdr{{Kind: hVia, Vias: []AVia{{Host: ep.ip}}}}})
+					hist[len(hist)-1] += " and sends the first NOTIFY right behind it"
+					V.Journal(t.Name()+"/histories", hist)
+				}
+				if immediate {
+					s.in.expect(resp, notify)
+				} else {
+					s.in.expect(resp)
+				}
 				if err := send(resp); err != nil {
 					V.HarnessError(rt, "send: %v", err)
 				}
-				rs, err := s.in.settle(send, 1)
+				want := 1
+				if immediate {
+					if err := send(notify); err != nil {
+						V.HarnessError(rt, "send: %v", err)
+					}
+					want = 2
+				}
+				rs, err := s.in.settle(send, want)
 				if _, lost := err.(labLost); lost {
 					failf(rt, "%v\nhistory: %v", err, hist)
 				} else if err != nil {
 					V.HarnessError(rt, "%v", err)
 				}
 				got := labMessages(rs)
-				if len(got) != 1 || c04BackendKey(got[0]) != d.Backend {
+				if immediate {
+					var answers, notifies []labRx
+					for _, r := range got {
+						if strings.HasPrefix(r.msg.Start, "SIP/") {
+							answers = append(answers, r)
+						} else {
+							notifies = append(notifies, r)
+						}
+					}
+					if len(answers) != 1 || c04BackendKey(answers[0]) != d.Backend {
+						failf(rt, "the answer to the backend's SUBSCRIBE must return to backend %s; receptions:\n%shistory: %v", d.Backend, labDescribe(got), hist)
+					}
+					if len(notifies) != 1 || c04BackendKey(notifies[0]) != d.Backend {
+						failf(rt, "the NOTIFY sent right behind the 2xx belongs to the dialog of the subscribing backend %s and must be delivered there and nowhere else; receptions:\n%shistory: %v", d.Backend, labDescribe(got), hist)
+					}
+					V.Class("NOTIFY right behind the 2xx of a backend-issued SUBSCRIBE")
+				} else if len(got) != 1 || c04BackendKey(got[0]) != d.Backend {
 					failf(rt, "the answer to the backend's SUBSCRIBE must return to backend %s; receptions:\n%shistory: %v", d.Backend, labDescribe(got), hist)
 				}
 				d.Pinned = d.Backend
@@ -479,5 +556,106 @@ func TestC04(t *testing.T) {
 			},
 		})
 		V.SampleEvery(30, func() any { return hist })
+	})
+
+	// Every pin younger than the dialog timeout survives the expiry sweeps: on the
+	// 2 s instance a new dialog is pinned every 300 ms for a little longer than
+	// one timeout, and every 50 ms all dialogs that are certainly younger than
+	// the timeout are probed with an in-dialog request. At least one sweep falls
+	// into the window (any relayed request triggers it once it is due).
+	t.Run("sweep-survival", func(t *testing.T) {
+		if (V.replay && V.only == "") || V.ViolationCount() > 0 {
+			return
+		}
+		V.Require("sweep survival: young pin probed across a sweep period")
+		s := svcs[len(svcs)-1]
+		l := s.in.cfg.Listens[0]
+		ua := s.uas[0]
+		send := func(b []byte) error { return ua.sendUDP(l.Addr, l.UDPPort, b) }
+		request := func(method, callID, fromTag, toTag string) ([]labRx, error) {
+			to := "<sip:b@nomatch.example>"
+			if toTag != "" {
+				to += ";tag=" + toTag
+			}
+			wire := []byte(fmt.Sprintf("%s sip:svc.test SIP/2.0\r\nVia: SIP/2.0/UDP %s:5060;branch=z9hG4bK%s;rport\r\nFrom: <sip:a@a.example>;tag=%s\r\nTo: %s\r\nCall-ID: %s\r\nCSeq: 1 %s\r\nContent-Length: 0\r\n\r\n", method, ua.ip, s.nextID("c04s"), fromTag, to, callID, method))
+			s.model.learnRequest(s.model.transport(0, "udp"), ua.ip, &AMsg{IsReq: true, Hdrs: []AHdr{{Kind: hVia, Vias: []AVia{{Host: ua.ip}}}}})
+			s.in.expect(wire)
+			if err := send(wire); err != nil {
+				return nil, err
+			}
+			rs, err := s.in.settle(send, 1)
+			return labMessages(rs), err
+		}
+		type sdlg struct {
+			id, pinned string
+			before     time.Time
+			probes     int
+		}
+		for round := 0; round < V.N(1, 4); round++ {
+			start := time.Now()
+			nextPin := start
+			var ds []*sdlg
+			var log []string
+			for time.Since(start) < shortTimeout+700*time.Millisecond {
+				if !time.Now().Before(nextPin) {
+					nextPin = nextPin.Add(300 * time.Millisecond)
+					d := &sdlg{id: s.nextID("sv")}
+					got, err := request("INVITE", "c04sv-"+d.id, "f"+d.id, "")
+					if err != nil || len(got) != 1 {
+						if _, lost := err.(labLost); lost || err == nil {
+							V.Violation(t, "", log, "sweep survival: the INVITE of %s was not delivered to exactly one backend: %v\n%s", d.id, err, labDescribe(got))
+							return
+						}
+						V.HarnessError(t, "%v", err)
+					}
+					d.pinned = c04BackendKey(got[0])
+					resp := buildResponse(got[0].msg, 200, "OK", "t"+d.id, "")
+					ep := got[0].ep
+					bsend := func(b []byte) error { return ep.sendUDP(l.Addr, l.UDPPort, b) }
+					d.before = time.Now()
+					s.in.expect(resp)
+					bsend(resp)
+					if _, err := s.in.settle(bsend, 1); err != nil {
+						if _, lost := err.(labLost); lost {
+							V.Violation(t, "", log, "sweep survival: %v", err)
+							return
+						}
+						V.HarnessError(t, "%v", err)
+					}
+					ds = append(ds, d)
+					log = append(log, fmt.Sprintf("+%dms: %s pinned to %s", time.Since(start).Milliseconds(), d.id, d.pinned))
+				}
+				for _, d := range ds {
+					if time.Since(d.before) > shortTimeout-300*time.Millisecond {
+						continue
+					}
+					got, err := request("INFO", "c04sv-"+d.id, "f"+d.id, "t"+d.id)
+					age := time.Since(d.before)
+					V.Eval()
+					if err != nil || len(got) != 1 {
+						if _, lost := err.(labLost); lost || err == nil {
+							V.Violation(t, "", log, "sweep survival: in-dialog INFO of %s not delivered to exactly one backend: %v\n%s", d.id, err, labDescribe(got))
+							return
+						}
+						V.HarnessError(t, "%v", err)
+					}
+					if age > shortTimeout-100*time.Millisecond {
+						continue // slow run: may have been handled after the timeout
+					}
+					d.probes++
+					if k := c04BackendKey(got[0]); k != d.pinned {
+						log = append(log, fmt.Sprintf("+%dms: INFO of %s (pinned %d ms ago) arrived at %s", time.Since(start).Milliseconds(), d.id, age.Milliseconds(), k))
+						V.Violation(t, "", log, "sweep survival: dialog %s was pinned to %s only %v ago (dialog timeout %v) but its in-dialog INFO arrived at %s - the pin did not survive\nlog: %v", d.id, d.pinned, age.Round(time.Millisecond), shortTimeout, k, log)
+						return
+					}
+					if time.Since(start) > shortTimeout {
+						V.Class("sweep survival: young pin probed across a sweep period")
+						V.NonTrivial(fmt.Sprintf("sv|%s|%d", d.id, d.probes))
+					}
+				}
+				time.Sleep(50 * time.Millisecond)
+			}
+			V.Sample(map[string]any{"sweep_survival_round": round, "dialogs": len(ds), "log_head": log[:min(len(log), 4)]})
+		}
 	})
 }
